@@ -123,7 +123,8 @@ fn fri_verify_layers(
 
         // Compute next layer queries.
         let (next_queries, verify_indices, verify_y_values) =
-            compute_next_layer(&mut queries, &mut target_layer_witness_leaves, params).unwrap();
+            compute_next_layer(&mut queries, &mut target_layer_witness_leaves, params)
+                .map_err(|_| Error::LayerDecommitmentError)?;
 
         // Table decommitment.
         table_decommit(
@@ -152,6 +153,11 @@ pub fn fri_verify(
             expected: queries.len(),
             actual: decommitment.values.len(),
         });
+    }
+
+    // One witness per inner layer.
+    if Felt::from(witness.layers.len() + 1) != commitment.config.n_layers {
+        return Err(Error::InvalidValue);
     }
 
     // Compute first FRI layer queries.
